@@ -166,31 +166,33 @@ Theorem C32_xml_hex_digit_case c : 65 <= c <= 70 -> hex_digit c = Some (c - 55) 
 Proof. exact (xml_hex_digit_case c). Qed.
 Print Assumptions C32_xml_hex_digit_case.
 
-Theorem C32_xml_attribute_roundtrip utf8 cw s : no_ref s = true ->
-  xml_read_attr utf8 (xml_encode cw false s) = Some s.
-Proof. exact (xml_attribute_roundtrip utf8 cw s). Qed.
+Theorem C32_xml_attribute_roundtrip utf8 cw q s rest : no_ref s = true -> q = 34 \/ q = 39 ->
+  xml_read_attr utf8 q (xml_encode cw false s ++ q :: rest) = Some s.
+Proof. exact (xml_attribute_roundtrip utf8 cw q s rest). Qed.
 Print Assumptions C32_xml_attribute_roundtrip.
 
-Theorem C32_xml_text_roundtrip_keep utf8 s : no_ref s = true -> all_space s = false ->
-  xml_read_text false utf8 (xml_encode false true s) = Some s.
-Proof. exact (xml_text_roundtrip_keep utf8 s). Qed.
+Theorem C32_xml_text_roundtrip_keep utf8 s rest : no_ref s = true -> all_space s = false ->
+  xml_read_text false utf8 (xml_encode false true s ++ 60 :: rest) = Some s.
+Proof. exact (xml_text_roundtrip_keep utf8 s rest). Qed.
 Print Assumptions C32_xml_text_roundtrip_keep.
 
 Theorem C32_xml_roundtrip_refuted :
-  xml_read_attr true (xml_encode true false [38; 35; 120; 52; 49; 59]) = Some [65] /\
-  xml_read_attr true (xml_encode true false [97; 38; 35; 120]) = None.
+  xml_read_attr true 34 (xml_encode true false [38; 35; 120; 52; 49; 59] ++ [34; 32; 47; 62]) = Some [65] /\
+  xml_read_attr true 34 (xml_encode true false [97; 38; 35; 120] ++ [34; 32; 47; 62]) = None.
 Proof. exact (@xml_roundtrip_refuted). Qed.
 Print Assumptions C32_xml_roundtrip_refuted.
 
-Theorem C32_xml_blank_text_refuted : xml_read_text true true (xml_encode true true [9]) = Some [] /\
-                               xml_read_text false true (xml_encode false true [32]) = Some [].
+Theorem C32_xml_blank_text_refuted : xml_read_text true true (xml_encode true true [9] ++ [60; 47; 114; 62]) = Some [] /\
+                               xml_read_text false true (xml_encode false true [32] ++ [60; 47; 114; 62]) = Some [].
 Proof. exact (@xml_blank_text_refuted). Qed.
 Print Assumptions C32_xml_blank_text_refuted.
 
 Theorem C32_xml_reference_examples :
-  xml_read_attr true [38;35;120;48;97;59; 38;35;120;48;65;59; 38;35;49;48;59] = Some [10; 10; 10] /\
-  xml_read_text true true [32; 97; 32; 32; 38;35;120;48;65;59; 98; 32] = Some [97; 32; 10; 98] /\
-  xml_read_attr true [38;35;50;51;51;59] = Some [195; 169] /\
-  xml_read_attr true [38;35;120;90;59] = None.
+  xml_read_attr true 34 ([38;35;120;48;97;59; 38;35;120;48;65;59; 38;35;49;48;59] ++ [34]) = Some [10; 10; 10] /\
+  xml_read_text true true ([32; 97; 32; 32; 38;35;120;48;65;59; 98; 32] ++ [60]) = Some [97; 32; 10; 98] /\
+  xml_read_attr true 34 ([38;35;50;51;51;59] ++ [34]) = Some [195; 169] /\
+  xml_read_attr false 34 ([38;35;50;51;51;59] ++ [34]) = Some [233] /\
+  xml_read_attr true 34 ([38;35;120;90;59] ++ [34]) = None /\
+  xml_read_attr true 34 ([38;35] ++ [34; 62; 60; 47; 114; 62]) = None.
 Proof. exact (@xml_reference_examples). Qed.
 Print Assumptions C32_xml_reference_examples.
